@@ -31,14 +31,15 @@ const (
 	fQ = "q.dat" // lockable, plain git file (changed by the local branch "side")
 	fR = "r.txt" // not lockable
 	fN = "n.dat" // lockable, plain git file that exists only on the local branch "side" (absent on work until `merge side`)
+	fU = "u.dat" // lockable, plain; in no commit: created by the "create" operation (untracked), then possibly `git add`ed and committed
 )
 
-var wfiles = []string{fP, fQ, fR, fN}
+var wfiles = []string{fP, fQ, fR, fN, fU}
 
-const nFiles = 4
+const nFiles = 5
 var users = []string{"u1", "u2"}
 
-func lockable(f string) bool { return f == fP || f == fQ || f == fN }
+func lockable(f string) bool { return f == fP || f == fQ || f == fN || f == fU }
 func fileIdx(f string) int {
 	for i, n := range wfiles {
 		if n == f {
@@ -88,6 +89,7 @@ func intern(kind byte, mode uint32, data []byte, link string) *ent {
 
 type lockRec struct {
 	ID, Path, Owner string
+	Ref             string // ref named in the create request
 }
 
 // snap is one complete world state.
@@ -120,6 +122,7 @@ type world struct {
 	srv      *fakelfs.Server
 	hostport string
 	cur      map[string]*ent
+	byRef    bool // the scenario runs against a server that scopes locks by ref
 
 	mu        sync.Mutex
 	next      int
@@ -194,6 +197,9 @@ func (w *world) hook(s *fakelfs.Server, rw http.ResponseWriter, r *http.Request,
 	}
 	var req struct {
 		Path string `json:"path"`
+		Ref  struct {
+			Name string `json:"name"`
+		} `json:"ref"`
 	}
 	if json.Unmarshal(rec.Body, &req) != nil || req.Path == "" {
 		writeJSON(422, map[string]string{"message": "bad lock request"})
@@ -202,7 +208,7 @@ func (w *world) hook(s *fakelfs.Server, rw http.ResponseWriter, r *http.Request,
 	s.Lock()
 	defer s.Unlock()
 	for _, l := range s.Locks {
-		if l.Path == req.Path {
+		if l.Path == req.Path && (!s.LocksByRef || l.Ref == req.Ref.Name) {
 			writeJSON(409, map[string]interface{}{"lock": l, "message": "already created lock"})
 			return true
 		}
@@ -211,7 +217,7 @@ func (w *world) hook(s *fakelfs.Server, rw http.ResponseWriter, r *http.Request,
 	w.next++
 	id := fmt.Sprintf("L%03d", w.next)
 	w.mu.Unlock()
-	l := &fakelfs.Lock{ID: id, Path: req.Path, LockedAt: "2024-01-01T12:00:00Z"}
+	l := &fakelfs.Lock{ID: id, Path: req.Path, LockedAt: "2024-01-01T12:00:00Z", Ref: req.Ref.Name}
 	l.Owner = &struct {
 		Name string `json:"name"`
 	}{rec.User}
@@ -269,7 +275,7 @@ func (w *world) table() []lockRec {
 	defer w.srv.Unlock()
 	var r []lockRec
 	for _, l := range w.srv.Locks {
-		r = append(r, lockRec{ID: l.ID, Path: l.Path, Owner: l.Owner.Name})
+		r = append(r, lockRec{ID: l.ID, Path: l.Path, Owner: l.Owner.Name, Ref: l.Ref})
 	}
 	return r
 }
@@ -412,7 +418,7 @@ func (w *world) restore(s snap) {
 	w.srv.Lock()
 	w.srv.Locks = nil
 	for _, l := range s.locks {
-		fl := &fakelfs.Lock{ID: l.ID, Path: l.Path, LockedAt: "2024-01-01T12:00:00Z"}
+		fl := &fakelfs.Lock{ID: l.ID, Path: l.Path, LockedAt: "2024-01-01T12:00:00Z", Ref: l.Ref}
 		fl.Owner = &struct {
 			Name string `json:"name"`
 		}{l.Owner}
@@ -423,6 +429,7 @@ func (w *world) restore(s snap) {
 		w.srv.Objects[k] = v
 	}
 	w.srv.Requests = nil
+	w.srv.LocksByRef = w.byRef
 	w.srv.Unlock()
 	w.mu.Lock()
 	w.next = s.next
@@ -452,6 +459,7 @@ type obs struct {
 	Table  []lockRec
 	U      [2]userObs
 	Remote []string
+	Staged [2]string // per user: which files have their uncommitted state in the index (model flag; the index itself is not read)
 	Key    uint64 // canonical key, symmetric in the two users (for alphabets in which both users act alike)
 	KeyA   uint64 // canonical key without the user symmetry (for alphabets with one acting user)
 }
@@ -645,7 +653,7 @@ func (o *obs) canon(order [2]int) string {
 	sort.Slice(tab, func(i, j int) bool { return tab[i].Path < tab[j].Path })
 	sb.WriteString("T:")
 	for _, l := range tab {
-		fmt.Fprintf(&sb, "%s=%s/%s;", l.Path, role(l.Owner), rank[l.ID])
+		fmt.Fprintf(&sb, "%s=%s/%s@%s;", l.Path, role(l.Owner), rank[l.ID], l.Ref)
 	}
 	for k := 0; k < 2; k++ {
 		u := &o.U[order[k]]
@@ -661,6 +669,7 @@ func (o *obs) canon(order [2]int) string {
 		}
 		sort.Strings(iks)
 		sb.WriteString(strings.Join(iks, ";"))
+		fmt.Fprintf(&sb, " staged:%s", o.Staged[order[k]])
 		fmt.Fprintf(&sb, " ok:%q w:%v e:%v c:%v m:%v refs:%s cfg:%s", u.CacheOK, u.W, u.Exists, u.Content, u.Merging, strings.Join(u.Refs, ","), shortSha([]byte(u.Cfg)))
 	}
 	sb.WriteString("\nR:")
@@ -721,7 +730,7 @@ func (o *obs) remoteRef(name string) string {
 func (o *obs) describe() map[string]interface{} {
 	var tab []string
 	for _, l := range o.Table {
-		tab = append(tab, fmt.Sprintf("%s locked by %s (%s)", l.Path, l.Owner, l.ID))
+		tab = append(tab, fmt.Sprintf("%s locked by %s (%s, ref %s)", l.Path, l.Owner, l.ID, l.Ref))
 	}
 	m := map[string]interface{}{"server_lock_table": tab}
 	for u, name := range users {
